@@ -61,12 +61,14 @@ fn run_progress_stub<T: Cell + ndarray::LinalgScalar + PartialEq + Send + num_tr
     let n_collect = pus(params, "n_collect");
     let n_discard = pus(params, "n_discard");
     let inner = pu(params, "inner_points") as u32;
+    let special = params.get("special").and_then(|v| v.as_bool()).unwrap_or(false);
     let cfg = sim_cfg(&params["sim"]);
     mcmc_sim::mpsc::reset_ids();
     let (rep, out) = run_sim(&cfg, move || {
         let mut s = CountSampler::<T>::new(nc, dim);
         for c in s.chains.iter_mut() {
             c.inner_points = inner;
+            c.special = special;
         }
         let r = s.run_progress(n_collect, n_discard);
         let counts: Vec<u64> = s.chains.iter().map(|c| c.n).collect();
@@ -96,7 +98,8 @@ fn run_progress_stub<T: Cell + ndarray::LinalgScalar + PartialEq + Send + num_tr
         None => o.harness_error = Some("simulation returned no value and no failure".into()),
         Some(Err(e)) => o.violate("run_progress_err", "ChainRunner::run_progress:Err", e),
         Some(Ok((arr, stats, counts))) => {
-            check_counting_array(&mut o, &arr, nc, n_collect, n_discard, dim, 0, "ChainRunner::run_progress");
+            check_counting_array_sp(&mut o, &arr, nc, n_collect, n_discard, dim, 0, "ChainRunner::run_progress", special);
+            o.count("probe_special_value_states", special as u64);
             for (c, n) in counts.iter().enumerate() {
                 if *n != total {
                     o.violate("transition_count", "ChainRunner::run_progress:transitions", format!("chain {c} performed {n} transitions, expected {total}"));
@@ -118,6 +121,12 @@ fn run_progress_stub<T: Cell + ndarray::LinalgScalar + PartialEq + Send + num_tr
 
 /// oracle of the transition-counter model for arrays produced by counting chains
 pub fn check_counting_array<T: Cell>(o: &mut Outcome, arr: &Array3<T>, nc: usize, n_collect: usize, n_discard: usize, dim: usize, before: u64, site: &str) {
+    check_counting_array_sp(o, arr, nc, n_collect, n_discard, dim, before, site, false)
+}
+
+/// `special`: the chains were in "special" mode (non-finite / beyond-f32 cells in some transitions)
+#[allow(clippy::too_many_arguments)]
+pub fn check_counting_array_sp<T: Cell>(o: &mut Outcome, arr: &Array3<T>, nc: usize, n_collect: usize, n_discard: usize, dim: usize, before: u64, site: &str, special: bool) {
     if arr.shape() != [nc, n_collect, dim] {
         o.violate("shape", &format!("{site}:shape"), format!("shape {:?}, expected [{nc}, {n_collect}, {dim}]", arr.shape()));
         return;
@@ -126,9 +135,14 @@ pub fn check_counting_array<T: Cell>(o: &mut Outcome, arr: &Array3<T>, nc: usize
         for k in 0..n_collect {
             let n = before + (n_discard + k + 1) as u64;
             for j in 0..dim {
-                let want = expect_cell(c as u64, n, j, dim) as f64;
+                let mut want = expect_cell(c as u64, n, j, dim) as f64;
+                if special {
+                    if let Some(v) = special_cell(c as u64, n, j, dim).and_then(T::of_special) {
+                        want = v.back();
+                    }
+                }
                 let got = arr[[c, k, j]].back();
-                if got != want {
+                if got.to_bits() != want.to_bits() && !(got.is_nan() && want.is_nan()) {
                     o.violate("draws_differ", &format!("{site}:draws"), format!("out[{c}][{k}][{j}] = {got}, expected {want} (chain {c} after {n} transitions)"));
                     return;
                 }
@@ -157,6 +171,7 @@ impl Scenario for ProgressStub {
             "elt": *g.pick(&["f64", "f64", "f32", "i32"]),
             "n_chains": nc, "dim": g.usize(1, 6), "n_collect": n_collect, "n_discard": n_discard,
             "inner_points": g.range(0, 2),
+            "special": g.bool(1, 4),
             "sim": gen_sim(g, nc + 2, true),
         })
     }
